@@ -69,6 +69,16 @@ impl SystemEventAccessTracker
     }
 }
 
+#[cfg(feature = "verif")]
+impl SystemEventAccessTracker
+{
+    /// Returns (number of prepared entries, currently reacting).
+    pub(crate) fn verif_state(&self) -> (usize, bool)
+    {
+        (self.prepared.len(), self.currently_reacting)
+    }
+}
+
 impl Default for SystemEventAccessTracker
 {
     fn default() -> Self
